@@ -5,4 +5,9 @@ import engcommon
 ID = "C03"
 HARNESS = "c03_harness"
 COQ_TARGETS = engcommon.COQ_BASE + ["Props/C03.vo"]
-DEV = True    # until Props/C03.v exists
+
+MANIFEST = {'technique': 'Rocq simulation proof memoised vs plain engine for statically left-recursion-free grammars, at-most-once theorem on the body log; differential run of both builds of every generated grammar', 'text': 'Props/C03.v: C03_transparent (same ordered results, same returned error, same furthest-error position with all Memoize wrappers removed; C03_transparent_subset for any two memoisations), C03_once (no (parser, position) pair twice in the body log), C03_deterministic. The check builds every lr-free generated grammar twice (wrappers on/off) on the real engine, compares results/errors/furthest-error position, counts body executions with a probe under Memoize, and compares all of it with the model.', 'note': 'Trusted: as C01. Known finding K1 (RightTrim mutates a cached node in place) is a model/implementation difference for trimmed memoised parsers; generators keep RightTrim out of memoised grammars.', 'ref': 'DESIGN.md section 6, C03'}
+RULE = ("all one-rule monotone grammars up to a node bound x all inputs over {a,b} up to a length bound (enumerated), plus random "
+        "grammars over all combinators, named and unnamed; non-trivial = non-empty root result or failing Sentence parse; "
+        "distinct = distinct case text")
+CORRESPONDENCE = "engine model (coq/Engine.v, eng_expected) = implementation on the projection of this property"
